@@ -21,8 +21,9 @@
        in Create mode fails iff the directory already holds a dataset; Dataset::open succeeds iff it
        does; object_store create / read_dir / remove_dir_all on a local directory.
    Declared domain of the string-level parts (what the harness generates): characters a-z A-Z 0-9, the
-   punctuation of [safe_char], `$`, `'`, `/`, `.` and alphabetic non-ASCII characters; names of at most 4
-   characters when they contain `'` (longer names could close a dollar-quoted string, see [scan_out]). *)
+   punctuation of [safe_char], `_`, `$`, `'`, `/`, `.` and alphabetic non-ASCII characters; an id that contains
+   `'` has a single component of at most 4 characters (longer spliced texts can close a dollar-quoted
+   string, see [scan_out], and reach planner paths that are not modelled). *)
 From LanceV Require Import Common.Base.
 Local Open Scope N_scope.
 
